@@ -329,6 +329,25 @@ func (x *Exec) libCall(s *State, site ssa.Instruction, fn *ssa.Function, name st
 		x.used(name)
 		k(s, StrSuffixOf(T(1), T(0)))
 		return true
+	case "strings.ContainsAny":
+		if cs := T(1); cs.Op == "str" && len(cs.Str) <= 16 {
+			x.used(name + " (literal character set: one Contains per ASCII character)")
+			ascii := true
+			var ds []*Term
+			for i := 0; i < len(cs.Str); i++ {
+				if cs.Str[i] >= 0x80 {
+					ascii = false
+				}
+				ds = append(ds, StrContains(T(0), Str(string(cs.Str[i]))))
+			}
+			if ascii {
+				k(s, Or(ds...))
+				return true
+			}
+		}
+		x.used(name)
+		k(s, x.freshResult(s, site, fn.Signature.Results()))
+		return true
 	case "strings.Contains":
 		x.used(name)
 		k(s, StrContains(T(0), T(1)))
